@@ -289,6 +289,7 @@ type case14 struct {
 	Doc    string     `json:"doc"`
 	Path   []string   `json:"path"`
 	Name   string     `json:"name,omitempty"`
+	Name2  string     `json:"name2,omitempty"` // second field (op put2)
 	Value  *vspec     `json:"value,omitempty"`
 	Value2 *vspec     `json:"value2,omitempty"` // second value for the last-write-wins law (put)
 	FS     *fsSpec    `json:"fs,omitempty"`     // field spec (op fieldspec)
@@ -331,6 +332,23 @@ func exec14On(doc *kyaml.RNode, c case14) (cls string, found *kyaml.RNode, msg s
 			found, e = doc.Pipe(kyaml.Lookup(c.Path...), kyaml.Clear(c.Name))
 		case "putscalar":
 			found, e = doc.Pipe(kyaml.LookupCreate(kyaml.ScalarNode, c.Path...), kyaml.FieldSetter{Value: c.Value.build()})
+		case "put2":
+			found, e = doc.Pipe(kyaml.LookupCreate(kyaml.MappingNode, c.Path...), kyaml.SetField(c.Name, c.Value.build()),
+				kyaml.SetField(c.Name2, c.Value2.build()))
+		case "copyindep":
+			// clear, copy, write to the copy, write to the original: both documents are observed
+			if _, e = doc.Pipe(kyaml.Lookup(c.Path...), kyaml.Clear(c.Name)); e != nil {
+				return e
+			}
+			cp := doc.Copy()
+			if _, e = cp.Pipe(kyaml.LookupCreate(kyaml.MappingNode, c.Path...), kyaml.SetField("zz1", kyaml.NewScalarRNode("1"))); e != nil {
+				// the model runs the put on the original first: same error either way (same node kinds)
+				return e
+			}
+			if _, e = doc.Pipe(kyaml.LookupCreate(kyaml.MappingNode, c.Path...), kyaml.SetField("zz2", kyaml.NewScalarRNode("2"))); e != nil {
+				return e
+			}
+			found = cp
 		case "fieldspec":
 			_, e = doc.Pipe(c.FS.filter(nil))
 		case "fsslice":
@@ -794,6 +812,7 @@ func laws14doc(s sink, c case14, d *docCtx14, probes []probe14) (cls string, got
 			reportPanic14(s, c, msg)
 			return cls, false
 		}
+		lawHandle14(s, c, d.orig, found, nil)
 		// C14_refines_json_get / _absent
 		if cls == ClsOk {
 			j := jget14(parsePath14(c.Path), d.json())
@@ -822,6 +841,9 @@ func laws14doc(s sink, c case14, d *docCtx14, probes []probe14) (cls string, got
 				report("absent_clear_noop", fmt.Sprintf("Clear of an absent path (class %s) changed the document: %s -> %s", cls2, docString(d.ref), docString(doc2)))
 			}
 		}
+		if cls2 == ClsOk && found2 != nil { // something was removed: the Content slice was truncated in place
+			lawCopyIndependent14(s, c, doc2, c.Path)
+		}
 		return cls2, found2 != nil
 	case "lookupcreate", "putnc", "putscalar":
 		doc := d.ref.Copy()
@@ -831,6 +853,9 @@ func laws14doc(s sink, c case14, d *docCtx14, probes []probe14) (cls string, got
 			return cls, false
 		}
 		checkWellFormed14(s, c, cls, doc)
+		if cls == ClsOk && (c.Op != "putnc" || (c.Value != nil && !kyaml.IsMissingOrNull(c.Value.build()))) {
+			lawHandle14(s, c, doc, found, nil)
+		}
 		if c.Op == "putscalar" && c.Value != nil && cls == ClsOk && found != nil {
 			lawsPutScalar14(s, c, d, doc)
 		}
@@ -845,6 +870,81 @@ func laws14doc(s sink, c case14, d *docCtx14, probes []probe14) (cls string, got
 		return lawsAPI14(s, c, d)
 	}
 	return "", false
+}
+
+// reachable14: n is a node of the tree under root (pointer identity; Content of every node, also of scalars)
+func reachable14(root, n *kyaml.Node) bool {
+	if root == nil || n == nil {
+		return false
+	}
+	if root == n {
+		return true
+	}
+	for _, c := range root.Content {
+		if reachable14(c, n) {
+			return true
+		}
+	}
+	return false
+}
+
+// lawHandle14: the node a path operation returns is a node OF THE DOCUMENT (so that a caller can write through it):
+// Lookup / LookupCreate / SetField with a non-null value / the unnamed FieldSetter. [full] = the path under which
+// the model says the returned node is found afterwards (nil: only reachability is checked).
+func lawHandle14(s sink, c case14, doc, found *kyaml.RNode, full []string) {
+	if doc == nil || found == nil || found.YNode() == nil {
+		return
+	}
+	s.Count("law_domain", "returned-handle")
+	if !reachable14(doc.YNode(), found.YNode()) {
+		s.Violation(OracleViolation{Law: "returned_handle", Class: "C14/returned-handle-detached",
+			Detail: "the node the operation returned is not a node of the document: " + docString(found) + " vs " + docString(doc), Replay: c})
+		return
+	}
+	if full != nil {
+		if cls, at, _ := lookupOn(doc, full); cls == ClsOk && at != nil && at.YNode() != found.YNode() {
+			s.Violation(OracleViolation{Law: "returned_handle", Class: "C14/returned-handle-detached",
+				Detail: fmt.Sprintf("the node returned is not the node Lookup(%q) finds afterwards", full), Replay: c})
+			return
+		}
+		// write through the handle and observe the document
+		if y := found.YNode(); y.Kind == kyaml.ScalarNode {
+			old := y.Value
+			y.Value = "written-through-the-handle"
+			cls, at, _ := lookupOn(doc, full)
+			ok := cls == ClsOk && at != nil && at.YNode().Value == "written-through-the-handle"
+			y.Value = old
+			if !ok {
+				s.Violation(OracleViolation{Law: "returned_handle", Class: "C14/returned-handle-detached",
+					Detail: fmt.Sprintf("a write through the returned node is not visible at %q", full), Replay: c})
+			}
+		}
+	}
+}
+
+// lawCopyIndependent14: RNode.Copy() yields an independent document: writing to the copy leaves the original
+// untouched and writing to the original leaves the copy untouched. Checked on the document [doc] as an operation left
+// it, with two puts at [path] (the node the operation worked on). The model is value based (a copy is the same value),
+// so this is an implementation-only law.
+func lawCopyIndependent14(s sink, c case14, doc *kyaml.RNode, path []string) {
+	if doc == nil || !wellFormed14(doc.YNode()) {
+		return
+	}
+	s.Count("law_domain", "copy-independent")
+	before := docString(doc)
+	cp := doc.Copy()
+	clsC, _, _ := putOn(cp, path, "zz1", kyaml.NewScalarRNode("1"))
+	if docString(doc) != before {
+		s.Violation(OracleViolation{Law: "copy_independent", Class: "C14/copy-shares-content",
+			Detail: fmt.Sprintf("a put on the Copy() (class %s) changed the original: %s -> %s", clsC, before, docString(doc)), Replay: c})
+		return
+	}
+	cpAfter := docString(cp)
+	clsO, _, _ := putOn(doc, path, "zz2", kyaml.NewScalarRNode("2"))
+	if docString(cp) != cpAfter {
+		s.Violation(OracleViolation{Law: "copy_independent", Class: "C14/copy-shares-content",
+			Detail: fmt.Sprintf("a put on the original (class %s) changed its earlier Copy(): %s -> %s", clsO, cpAfter, docString(cp)), Replay: c})
+	}
 }
 
 func lawsPutScalar14(s sink, c case14, d *docCtx14, doc1 *kyaml.RNode) {
@@ -915,6 +1015,9 @@ func lawsPut14(s sink, c case14, d *docCtx14, probes []probe14) (string, bool) {
 	}
 
 	v := c.Value.build()
+	if found != nil && !kyaml.IsMissingOrNull(v) {
+		lawHandle14(s, c, doc1, found, nil)
+	}
 	if found == nil || !stable || kyaml.IsMissingOrNull(v) || nullOnPath14(d.orig, c.Path) {
 		return cls, found != nil
 	}
@@ -927,6 +1030,9 @@ func lawsPut14(s sink, c case14, d *docCtx14, probes []probe14) (string, bool) {
 	} else if !sameValue14(got, v) {
 		report("put_get", fmt.Sprintf("after put lookup returns %s, want %s", docString(got), docString(v)))
 	}
+
+	// ---- the returned node is the field inside the document (C14_put_get gives the path it is found under)
+	lawHandle14(s, c, doc1, found, full)
 
 	// ---- C14_put_put_idempotent
 	doc2 := doc1.Copy()
@@ -1001,6 +1107,19 @@ func caseTermObs14(c case14, cls string, doc, found *kyaml.RNode, obs string) (s
 		}
 	case "clear":
 		op = fmt.Sprintf("(OClear %s)", coqStr(c.Name))
+	case "put2":
+		v1, v2 := c.Value.build(), c.Value2.build()
+		t1, ok1 := nodeTerm(v1)
+		t2, ok2 := nodeTerm(v2)
+		if !ok1 || !ok2 {
+			return "", false
+		}
+		scalarValues(v1.YNode(), vals)
+		scalarValues(v2.YNode(), vals)
+		op = fmt.Sprintf("(OPut2 %s %s %s %s)", coqStr(c.Name), t1, coqStr(c.Name2), t2)
+	case "copyindep":
+		op = fmt.Sprintf("(OCopyIndep %s)", coqStr(c.Name))
+		vals["1"], vals["2"] = true, true
 	case "fieldspec":
 		op = c.FS.coqOp()
 		vals["MARK"] = true
@@ -1083,7 +1202,7 @@ func genProbes14(g *Rng, full []string) [][]string {
 func runC14(r *Run, rng *Rng, tier string) error {
 	nModel, nLaw, nFS, nFSLaw := 900, 4000, 500, 2500
 	if tier == "thorough" {
-		nModel, nLaw, nFS, nFSLaw = 9000, 100000, 4000, 40000
+		nModel, nLaw, nFS, nFSLaw = 6000, 100000, 3000, 40000
 	}
 	r.Meta.Rule = "path ops: random block-YAML mappings (depth<=3, keys a/b/name/c, scalars x/y/1/\"1\"/null/true/\"\"/yes, " +
 		"keyed and primitive lists, rare duplicate keys); paths of length<=4 over keys, [name=v], [=v], indices, '-', rare malformed parts; " +
@@ -1113,6 +1232,43 @@ func runC14(r *Run, rng *Rng, tier string) error {
 			c.Value = &v
 		case "clear":
 			c.Name = g.Pick(c14Keys)
+			if g.Chance(40) {
+				c.Op = "copyindep"
+				// aim at an existing field most of the time, the only field of its mapping if there is one
+				maps := []seqAt{}
+				sq := []seqAt{}
+				collect14(root, nil, &sq, &maps, 0)
+				if len(maps) > 0 && !g.Chance(20) {
+					m := maps[g.Intn(len(maps))]
+					for _, cand := range maps {
+						if len(cand.seq.keys) == 1 && g.Chance(60) {
+							m = cand
+						}
+					}
+					c.Path = m.path
+					if len(m.seq.keys) > 0 {
+						c.Name = m.seq.keys[g.Intn(len(m.seq.keys))]
+					}
+				}
+			}
+		}
+		if c.Op == "put" && g.Chance(22) {
+			// chained Pipe(LookupCreate, SetField(name, mapping), SetField(k, v)); the mapping field exists half of the time
+			c.Op = "put2"
+			maps, sq := []seqAt{}, []seqAt{}
+			collect14(root, nil, &sq, &maps, 0)
+			if len(maps) > 0 && !g.Chance(20) {
+				m := maps[g.Intn(len(maps))]
+				c.Path = m.path
+				if len(m.seq.keys) > 0 && g.Chance(65) {
+					c.Name = m.seq.keys[g.Intn(len(m.seq.keys))]
+				}
+			}
+			mv := []vspec{{"parse", "{}"}, {"parse", "{k0: v0}"}, {"parse", "{k0: v0}"}, {"parse", "x"}, {"parse", "null"}, {"parse", "[p]"}}[g.Intn(6)]
+			c.Value = &mv
+			c.Name2 = g.Pick([]string{"replicas", "k0", "a"})
+			v2 := c14Values[g.Intn(len(c14Values))]
+			c.Value2 = &v2
 		}
 		if c.Op == "put" {
 			v2 := c14Values[g.Intn(len(c14Values))]
@@ -1137,7 +1293,7 @@ func runC14(r *Run, rng *Rng, tier string) error {
 	}
 	nAPI := 700
 	if tier == "thorough" {
-		nAPI = 8000
+		nAPI = 5000
 	}
 	for i := 0; i < nAPI; i++ {
 		runOne14(r, genAPICase14(rng.Fork()), true)
@@ -1147,6 +1303,26 @@ func runC14(r *Run, rng *Rng, tier string) error {
 		c := genAPICase14(g)
 		runOne14(r, c, false)
 		lawSplit14(r, c, g)
+	}
+	// anchors / aliases / merge keys: the de-anchored document goes to the model and the laws; the operation on the
+	// document as written runs on the implementation only and is counted as skipped when its result is unrepresentable
+	nAlias := 120
+	if tier == "thorough" {
+		nAlias = 1500
+	}
+	for i := 0; i < nAlias; i++ {
+		c, raw, ok := genAliasCase14(rng.Fork(), r)
+		if ok {
+			r.Count("alias_docs", "de-anchored: sent to the model")
+			runOne14(r, c, true)
+		}
+		cls, doc, found, _ := exec14(raw)
+		if _, rep := caseTerm14(raw, cls, doc, found); rep {
+			r.Count("alias_docs", "as written: representable result")
+		} else {
+			r.Count("alias_docs", "as written: implementation only (alias nodes are not representable)")
+			r.Meta.Skipped++
+		}
 	}
 	for i := 0; i < nLaw; i++ {
 		g := rng.Fork()
